@@ -5,8 +5,9 @@ The codecs (flate2, brotli) are outside the model: `Codec` is an abstract pair o
 finish) and `CodecLaws` are the two streaming laws (Proofs/FilterCodec.lean).  What is proved is the glue of
 `FilterBodyAction`: decode stage first, encode stage last, the `break` of `do_filter` on empty data, the feeding order
 of `do_end`.  The statement inherits C03: the inner chain must behave on the decoder's outputs as on the whole body
-(`ChunkInvariantOn`), which is unconditional for text filters (`compressed_equiv_text`) and is the known finding D4
-for html filters at unsafe flush points.
+(`ChunkInvariantOn`), which is unconditional for text filters (`compressed_equiv_text`) and, since the D4 repair fe7eac6,
+holds for html filters wherever the decoder flushes (`compressed_equiv_html` under the restart law of the stream
+tokenizer; `compressed_equiv_final` in Props/C14tok.lean on the tokenizer model, no hypothesis left).
 -/
 import RioModel.Proofs.FilterCodec
 import RioModel.Proofs.FilterPipe
